@@ -416,6 +416,9 @@ func CheckC17(e *fw.Env, l *Lab) {
 	if e.Shard == 2%e.Shards {
 		largeGenesisC17(e, l)
 	}
+	if e.Shard == 3%e.Shards {
+		idListsGenesisC17(e, l)
+	}
 }
 
 // permutedGenesisC17: a document whose lists hold the same (distinct) entries in another order
@@ -637,5 +640,67 @@ func largeGenesisC17(e *fw.Env, l *Lab) {
 			continue
 		}
 		e.Res.Sig("large-genesis|%d", n)
+	}
+}
+
+// idListsGenesisC17: every list of up to 4 identifiers (with repeats anywhere) for the paused
+// actions and the paused protocols: whatever validation decides, a document it accepts
+// initialises, and then holds exactly the identifiers listed.
+func idListsGenesisC17(e *fw.Env, l *Lab) {
+	w := l.W
+	gen := func(alphabet []string, max int) [][]string {
+		var out [][]string
+		var rec func(cur []string)
+		rec = func(cur []string) {
+			out = append(out, append([]string(nil), cur...))
+			if len(cur) == max {
+				return
+			}
+			for _, a := range alphabet {
+				rec(append(cur, a))
+			}
+		}
+		rec(nil)
+		return out
+	}
+	type variant struct {
+		field string
+		lists [][]string
+	}
+	for _, v := range []variant{
+		{"actions", gen([]string{"ACTION_FEE", "ACTION_SWAP"}, 4)},
+		{"protocols", gen([]string{"PROTOCOL_IBC", "PROTOCOL_CCTP", "PROTOCOL_HYPERLANE"}, 3)},
+	} {
+		for _, ids := range v.lists {
+			bz, _ := json.Marshal(ids)
+			actions, protocols := "[]", "[]"
+			if v.field == "actions" {
+				actions = string(bz)
+			} else {
+				protocols = string(bz)
+			}
+			doc := []byte(fmt.Sprintf(`{"adapter_genesis":{"params":{"max_passthrough_payload_size":0}},"dispatcher_genesis":{"dispatched_amounts":[],"dispatched_counts":[]},"forwarder_genesis":{"paused_protocol_ids":%s,"paused_cross_chain_ids":[]},"executor_genesis":{"paused_action_ids":%s}}`, protocols, actions))
+			e.Res.Eval()
+			if err := validateOrbiter(w, doc); err != nil {
+				e.Res.Sig("id-list|%s|n=%d|refused", v.field, len(ids))
+				continue
+			}
+			ctx, _ := l.Base.CacheContext()
+			wipeOrbiterStore(w, ctx)
+			wtn := map[string]any{"field": v.field, "ids": ids}
+			if err := initOrbiter(w, ctx, doc); err != nil {
+				e.Res.Violate(fw.Violation{Property: "C17", Kind: "validated-genesis-fails-to-initialise", Tags: map[string]string{"class": genesisFailClass(err.Error())},
+					Detail: fmt.Sprintf("paused %s %v pass ValidateGenesis but InitGenesis fails: %s", v.field, ids, trunc(err.Error(), 200)), Witness: wtn})
+				continue
+			}
+			want, _ := genesisEntries(w, doc)
+			got, _ := genesisEntries(w, exportOrbiter(w, ctx))
+			if miss, extra := setDiff(want, got); len(miss)+len(extra) > 0 {
+				e.Res.Violate(fw.Violation{Property: "C17", Kind: "genesis-entries-dropped", Tags: map[string]string{"class": "id-list"},
+					Detail: fmt.Sprintf("paused %s %v: state lacks %v, has in addition %v", v.field, ids, miss, extra), Witness: wtn})
+				continue
+			}
+			e.Res.Sig("id-list|%s|n=%d|initialised", v.field, len(ids))
+		}
 	}
 }
